@@ -497,7 +497,10 @@ fn drive_sound<T: Transport>(t: T, p: &CmdParams, rng: &mut SmallRng) -> String 
                     continue;
                 }
                 let per = period[sid as usize];
-                let n = if per == 0 { 10 } else { per * rng.gen_range(1..=12) + if rng.gen_bool(0.3) { rng.gen_range(0..per) } else { 0 } };
+                // mostly up to 12 periods, sometimes more than the transmit queue has slots (the
+                // driver's bookkeeping ring is reused) - up to 80
+                let periods = if rng.gen_bool(0.25) && per <= 512 { rng.gen_range(33..=80) } else { rng.gen_range(1..=12) };
+                let n = if per == 0 { 10 } else { per * periods + if rng.gen_bool(0.3) { rng.gen_range(0..per) } else { 0 } };
                 let start: u8 = rng.r#gen();
                 let frames: Vec<u8> = (0..std::cmp::max(n, 1)).map(|i| start.wrapping_add((i as u8).wrapping_mul(7))).collect();
                 let chunks = if per == 0 { 1 } else { frames.len().div_ceil(per) };
